@@ -8,7 +8,7 @@ from .dm14 import Rig, READ, WRITE, ref_values, ref_bytes, CLI, SRV
 from .common import sym_payload
 
 
-def h_intrude(ex, rw, nbytes, seed_key, who='foreign', n_intrusions=1, cli=CLI):
+def h_intrude(ex, rw, nbytes, seed_key, who='foreign', n_intrusions=1, cli=CLI, icmd=0x13, ikey=None):
     """who: 'foreign' (another source address, symbolic, same or different pointer) |
             'same_sa' (the running requester's own address with another pointer)"""
     rig = Rig(ex, seed_key=seed_key, cli=cli)
@@ -25,7 +25,14 @@ def h_intrude(ex, rw, nbytes, seed_key, who='foreign', n_intrusions=1, cli=CLI):
         iptr = ex.fresh_int('intruder_ptr', 0, (1 << 32) - 1)
         ex.assume(iptr != ptr)
     icount = ex.fresh_int('intruder_count', 1, 255)
-    idata = [icount, 0x13] + [(iptr // 2 ** (8 * k)) % 256 for k in range(4)] + [0x07, 0x00]
+    # icmd: second byte of the intruding DM14 (pointer type / command): 0x13 read, 0x15 write, 0x19 operation completed,
+    # 0x11 erase, 0x1B operation failed; ikey 'sym': its key / user level field symbolic (it may equal the expected key)
+    if ikey == 'sym':
+        kv = ex.fresh_int('intruder_key', 0, 0xFFFF)
+        ktail = [kv % 256, kv // 256]
+    else:
+        ktail = [0x07, 0x00]
+    idata = [icount, icmd] + [(iptr // 2 ** (8 * k)) % 256 for k in range(4)] + ktail
     icid = (6 << 26) | (0xD9 << 16) | (SRV << 8) | isa
     state = {'events': 0, 'injected': 0, 'in_deliver': False, 'started': False, 'where': []}
 
@@ -231,6 +238,16 @@ def jobs(tier):
             J(rw=rw, nbytes=3, seed_key=sk, who='foreign', n_intrusions=2)
             for n in ([3, 20] if q else [1, 3, 7, 8, 9, 20]):
                 out.append(Job('C19', 'c19:h_client_busy', {'rw': rw, 'nbytes': n, 'seed_key': sk}, W=96, wall=300, max_paths=50000, validate=1))
+            for icmd in ((0x19, 0x15) if q else (0x11, 0x15, 0x17, 0x19, 0x1B, 0x1D, 0x1F, 0x03)):
+                J(rw=rw, nbytes=3, seed_key=sk, who='foreign', icmd=icmd)
+                if not q:
+                    J(rw=rw, nbytes=9, seed_key=sk, who='same_sa', icmd=icmd)
+            if sk:
+                J(rw=rw, nbytes=3, seed_key=sk, who='foreign', ikey='sym')
+            if not q:
+                for n in (3, 9):
+                    J(rw=rw, nbytes=n, seed_key=sk, who='foreign', n_intrusions=3)
+                    J(rw=rw, nbytes=n, seed_key=sk, who='same_sa', n_intrusions=2)
             J(rw=rw, nbytes=3, seed_key=sk, who='foreign', cli=0x00)
             J(rw=rw, nbytes=9, seed_key=sk, who='foreign', cli=0xFD)
     return out
@@ -242,6 +259,6 @@ def meta(tier):
                    'injection point: after every frame the server has received from the running requester and after every frame the serving application thread has sent (enumerated schedule choice), 1 or 2 intrusions',
                    'intruder: foreign source address (symbolic 0..253, != server, != requester) with a symbolic pointer (= / != the running one, split by the solver) and symbolic count; or the requester\'s own address with a different pointer',
                    'pointer, data, values, seed symbolic', 'running requester at address 0xF9, 0x00, 0xFD', 'client-side shape: the intruding DM14 reaches a node that is itself running a read / write as client (every point of that transaction)'],
-        'outside': ['intruding frames other than a single-frame DM14 read request', 'more than two intrusions'],
+        'outside': ['intruding frames other than a single-frame DM14 (its command byte is one of read, write, operation completed' + ('' if tier == 'quick' else ', erase, status, operation failed, boot load, EDCP generation') + '; its key field 0x0007 or symbolic)', 'more than ' + ('two' if tier == 'quick' else 'three') + ' intrusions'],
         'assumptions': ['as C17'],
     }
